@@ -67,7 +67,7 @@ func init() {
 		NumCases:   func(tier string) int { a, b, c := c18Counts(tier); return a + b + c },
 		Run:        runC18,
 		Floor: func(tier string, st map[string]int64) string {
-			for _, k := range []string{"c18.iterator-cases", "c18.closed-before-first-next", "c18.closed-twice", "c18.abandoned-mid-range", "c18.producer-exit-observed", "c18.pin-release-observed", "c18.reentrant-cases", "c18.inner-calls", "c18.inner/Set", "c18.inner/Flush", "c18.inner/SetCollection-new", "c18.inner/RemoveCollection-other", "c18.inner/AllocStats", "c18.inner/nested-iterator", "c18.free-running-cases", "c18.free-running-callback-calls", "c18.visits-ended-by-a-read-error", "c18.visit-errors-reported", "c18.iterators-on-snapshots"} {
+			for _, k := range []string{"c18.iterator-cases", "c18.closed-before-first-next", "c18.closed-twice", "c18.abandoned-mid-range", "c18.producer-exit-observed", "c18.pin-release-observed", "c18.reentrant-cases", "c18.inner-calls", "c18.inner/Set", "c18.inner/Flush", "c18.inner/SetCollection-new", "c18.inner/RemoveCollection-other", "c18.inner/AllocStats", "c18.inner/nested-iterator", "c18.free-running-cases", "c18.free-running-callback-calls", "c18.visits-ended-by-a-read-error", "c18.visit-errors-reported", "c18.iterators-on-snapshots", "c18.merge-cases"} {
 				if st[k] == 0 {
 					return "no " + k + " observed"
 				}
@@ -117,6 +117,8 @@ func runC18(ctx *Ctx, idx int) Result {
 	var res Result
 	var hung string
 	switch {
+	case idx < len(c18IterCases()) && idx%400 == 200:
+		hung = guardCase(60*time.Second, func() { res = runC18Merge(ctx, idx, r) })
 	case idx < len(c18IterCases()):
 		hung = guardCase(60*time.Second, func() { res = runC18Iter(ctx, idx, c18IterCases()[idx], r) })
 	case idx < ni:
@@ -176,6 +178,108 @@ func pinReleased(e *driver.Env, c *gkvlite.Collection, what string) {
 	if ri.Refs != 1 || ri.Chained {
 		e.Failf("C18/version-pin-not-released/"+what, "after %s the collection's current version still has refs=%d (chained=%v): the producer goroutine or visit did not release the version it pinned", what, ri.Refs, ri.Chained)
 	}
+}
+
+// runC18Merge: ONE consumer goroutine drives many iterators at once (a k-way merge over collections and
+// snapshots): all of them are advanced by one item (every producer is parked with a version pinned), then
+// they are advanced round-robin to the end, some being closed early.  Nothing may block, every sequence must
+// be the model's, every producer must exit and every pin must be released.
+func runC18Merge(ctx *Ctx, idx int, r *gen.R) Result {
+	n := r.Range(3, 25)
+	e, _ := c18Env(idx, n, idx%3, r)
+	e.Snapshot(-1)
+	cs := []*gkvlite.Collection{e.H["t"], e.Snaps[0].H["t"]}
+	m := e.M.Live.Colls["t"]
+	k := r.Range(70, 260)
+	type one struct {
+		it      gkvlite.ItemIterator
+		exp     []model.KV
+		got     []model.KV
+		withVal bool
+		done    bool
+		closeAt int
+	}
+	its := make([]*one, k)
+	refs0 := []int64{gkvlite.VerifRootInfo(cs[0]).Refs, gkvlite.VerifRootInfo(cs[1]).Refs}
+	for i := range its {
+		o := &one{withVal: r.Bool(), closeAt: -1}
+		c := cs[i%2]
+		if r.P(30) {
+			o.closeAt = r.Intn(n + 1)
+		}
+		if i%3 == 0 {
+			o.it, o.exp = c.IterateDescend([]byte("zzzz"), o.withVal), m.Descend([]byte("zzzz"))
+		} else {
+			o.it, o.exp = c.IterateAscend(nil, o.withVal), m.Ascend(nil)
+		}
+		its[i] = o
+	}
+	step := func(o *one) {
+		if o.done {
+			return
+		}
+		if len(o.got) == o.closeAt {
+			o.it.Close()
+			o.done = true
+			return
+		}
+		if !o.it.Next() {
+			o.done = true
+			if err := o.it.Err(); err != nil {
+				e.Failf("C18/iterator/err", "iterator Err() = %v (one of %d iterators driven by one goroutine)", err, k)
+			}
+			if len(o.got) != len(o.exp) {
+				e.Failf("C18/iterator/wrong-sequence", "one of %d iterators driven by one goroutine ended after %d items, the model's range has %d", k, len(o.got), len(o.exp))
+			}
+			return
+		}
+		i := o.it.Result()
+		kv := model.KV{Key: append([]byte{}, i.Key...), Prio: i.Priority}
+		if o.withVal && i.Val != nil {
+			kv.Val = append([]byte{}, i.Val...)
+		}
+		o.got = append(o.got, kv)
+		if len(o.got) > len(o.exp) || !kvPrefixEqual(o.got, o.exp[:len(o.got)], o.withVal) {
+			e.Failf("C18/iterator/wrong-sequence", "one of %d iterators driven by one goroutine delivered a wrong item at position %d", k, len(o.got)-1)
+			o.done = true
+		}
+	}
+	for _, o := range its { // every producer gets parked holding its pin
+		step(o)
+	}
+	ctx.Stats["c18.max-iterators-open-at-once"] = int64(k)
+	for round := 0; round <= n+2 && !e.Failed(); round++ {
+		for _, o := range its {
+			step(o)
+		}
+	}
+	for _, o := range its {
+		if !o.done {
+			o.it.Close()
+		}
+		if o.it.Next() {
+			e.Failf("C18/iterator/next-true-after-end", "Next() returned true after the iterator was closed / exhausted (k-way merge)")
+		}
+	}
+	if st := driver.WaitIterProducers(20 * time.Second); st != "" {
+		e.Failf("C18/producer-goroutine-leak/merge", "producer goroutines are still alive after the consumer of %d iterators finished:\n%s", k, st)
+	} else {
+		ctx.Stats["c18.producer-exit-observed"]++
+	}
+	if !e.Failed() {
+		for j, c := range cs {
+			if ri := gkvlite.VerifRootInfo(c); ri.Open && ri.Refs != refs0[j] {
+				e.Failf("C18/version-pin-not-released/merge", "the version had refs=%d before %d iterators were created and refs=%d after they all finished", refs0[j], k, ri.Refs)
+			}
+		}
+		ctx.Stats["c18.pin-release-observed"]++
+	}
+	e.SnapClose(0)
+	e.AfterStep()
+	ctx.Stats["c18.merge-cases"]++
+	ctx.Add(e)
+	return Result{Hash: gen.Mix(uint64(idx), 1818), NonTrivial: true, Viol: violOf(e),
+		Sample: map[string]interface{}{"index": idx, "kind": "k-way merge by one consumer", "iterators": k, "size": n}}
 }
 
 func runC18Iter(ctx *Ctx, idx int, cs c18Iter, r *gen.R) Result {
